@@ -196,11 +196,16 @@ func (s *Store) getSession(c fiber.Ctx) (*Session, error) {
 //
 //	id := store.getSessionID(c)
 func (s *Store) getSessionID(c fiber.Ctx) string {
-	id := c.Cookies(s.sessionName)
-	if len(id) > 0 {
-		return utils.CopyString(id)
+	// With the header source the id travels in the header only: a cookie that happens
+	// to carry the header's name is not a session id
+	if s.source != SourceHeader {
+		id := c.Cookies(s.sessionName)
+		if len(id) > 0 {
+			return utils.CopyString(id)
+		}
 	}
 
+	var id string
 	if s.source == SourceHeader {
 		id = string(c.Request().Header.Peek(s.sessionName))
 		if len(id) > 0 {
